@@ -326,7 +326,8 @@ def api_level_f1(ck):
     os.makedirs(sd, exist_ok=True)
     core.write_ndjson(os.path.join(sd, "b_1.ndjson"), evs)
     res = ck.go_test("./lnwallet/", "^TestVerifChannelExec$", ["lnwallet/channel_exec_test.go"],
-                     env={"VERIF_SCHED": sd, "VERIF_TYPES": "tweakless", "VERIF_SHADOW_EVERY": 1000000}, name="exec_api")
+                     env={"VERIF_SCHED": sd, "VERIF_TYPES": "tweakless", "VERIF_SHADOW_EVERY": 1000000}, name="exec_api",
+                     extra_overlay=fixture_overlay(ck))
     trace = os.path.join(res["dir"], "trace.ndjson")
     recs = core.read_ndjson(trace)
     v = ck.validate(SPEC, "ChannelTrace", "ChannelTrace_C03api.cfg", trace, name="val_api")
